@@ -682,7 +682,10 @@ def static_tie(cm, chk, pid, repo):
             text = C02_FILE % propagator_kernels(repo)
             info["translated"] = ["rdmpropagator.py:_COM", "rdmpropagator.py:_TTI", "rdmpropagator.py:_OTI"]
         else:
-            return None
+            import translate2
+            if pid not in translate2.STATIC:
+                return None
+            text, info["translated"] = translate2.STATIC[pid](repo)
     except Untranslatable as e:
         info["status"] = "untranslatable: %s" % e
         chk.violation("static_tie:untranslatable", "the source of a translated kernel left the supported fragment (%s): the generated model can no "
